@@ -245,6 +245,9 @@ func (s *syncer) Sync(snapshot *snapshot, chunks *chunkQueue) (sm.State, *types.
 		return sm.State{}, nil, errors.New("a state sync is already in progress")
 	}
 	s.chunks = chunks
+	chunks.Lock()
+	chunks.rejected = s.snapshots.IsPeerRejected
+	chunks.Unlock()
 	s.mtx.Unlock()
 	defer func() {
 		s.mtx.Lock()
